@@ -129,6 +129,31 @@ def plan(pid, tier, seed, fx):
             jobs.append({"fixtures": [f], "prefix": prefixes(fx, f)[-1], "programs": programs(rng, A, 3 if thorough else 2, 3, 25 if thorough else 8),
                          "strategy": {"kind": "random", "max_schedules": 2000 if thorough else 40, "seed": seed},
                          "probe": probe_for(fx, f) if pid == "C18" else [], "hang_ms": 20000})
+        # several functions at once: group invalidations walk more than one cache (sync and async mixed),
+        # calls on one function race with an invalidation that reaches it through another's tag / event
+        for group in (["g_a", "g_ab", "g_dep"], ["g_ab", "g_ev", "g_self_async"], ["g_a", "g_self", "g_mem"]):
+            A = []
+            for f in group:
+                A += [call(f, 1), call(f, 2)]
+            tg = sorted({t for f in group for t in fx[f]["tags"]})
+            ev = sorted({t for f in group for t in fx[f]["events"]})
+            A += [{"op": "inv_tag", "x": t} for t in tg] + [{"op": "inv_event", "x": t} for t in ev]
+            A += [{"op": "inv_dep", "x": "g_a"}, {"op": "inv_name", "x": fx[group[0]]["cache_name"]},
+                  {"op": "inv_all_with", "sel": {fx[f]["cache_name"]: ["1"] for f in group}}]
+            if pid == "C17":
+                A.append({"op": "stats_get", "x": fx[group[1]]["cache_name"]})
+            pre = [call(f, k) for f in group for k in (1, 2, 3)]
+            probe = []
+            if pid == "C18":
+                for f in group:
+                    probe += [call(f, 7), call(f, 8), call(f, 9), call(f, 1), call(f, 7)]
+                probe += [{"op": "inv_tag", "x": tg[0]}] + [call(f, 7) for f in group]
+            jobs.append({"fixtures": group, "prefix": pre, "programs": programs(rng, A, 2, 2, 400 if thorough else 40),
+                         "strategy": {"kind": "dfs", "max_schedules": 300 if thorough else 30, "preempt": 2},
+                         "probe": probe, "hang_ms": 20000})
+            jobs.append({"fixtures": group, "prefix": pre, "programs": programs(rng, A, 3, 2, 60 if thorough else 6),
+                         "strategy": {"kind": "random", "max_schedules": 500 if thorough else 30, "seed": seed},
+                         "probe": probe, "hang_ms": 20000})
     elif pid == "C03":
         for f in ("s_plain", "a_plain"):
             A = [call(f, 1), call(f, 2)]
@@ -147,6 +172,80 @@ def plan(pid, tier, seed, fx):
                              "strategy": {"kind": "dfs", "max_schedules": 600 if thorough else 40, "preempt": 2},
                              "probe": [{"op": "stats_get", "x": fx[f]["cache_name"]}], "hang_ms": 20000})
     return jobs
+
+
+def cold_programs(fx, thorough):
+    """Programs in which a function's FIRST call -- all its `Once` registrations (invalidation metadata,
+    clear callback, conditional callback, statistics) -- races with registry-wide operations of another
+    thread. A cold function is only ever called by one thread (std `Once` blocks outside the scheduler)."""
+    out = []
+    for warm, cold, cold2 in (("g_a", "g_ab", "g_ev"), ("g_dep", "g_ev", "g_ab"), ("s_lru2", "a_lru2", "g_alias"),
+                              ("a_lru2", "g_self", "g_self_async")):
+        wn, cn = fx[warm]["cache_name"], fx[cold]["cache_name"]
+        t1s = [[call(cold, 1)], [call(cold, 1), call(cold, 2)]]
+        other = [{"op": "inv_all_with", "sel": {wn: ["1"], cn: ["1"]}}, {"op": "inv_with", "x": wn, "sel": ["1"]},
+                 {"op": "inv_with", "x": cn, "sel": ["1"]}, {"op": "inv_name", "x": cn}, {"op": "inv_name", "x": wn},
+                 {"op": "inv_dep", "x": "g_a"}, {"op": "stats_get", "x": cn}, {"op": "stats_get", "x": wn},
+                 {"op": "stats_reset", "x": cn}, call(warm, 1), call(warm, 3), call(cold2, 1)]
+        for t in sorted(set(fx[warm]["tags"] + fx[cold]["tags"]))[:2]:
+            other.append({"op": "inv_tag", "x": t})
+        for t in sorted(set(fx[warm]["events"] + fx[cold]["events"]))[:2]:
+            other.append({"op": "inv_event", "x": t})
+        t2s = [[o] for o in other]
+        if thorough:
+            t2s += [[a, b] for a in other[:6] for b in other[:6]]
+        else:
+            t2s += [[other[0], other[0]], [other[0], call(cold2, 1)], [call(cold2, 1), other[0]], [other[3], other[0]]]
+        for t1 in (t1s if thorough else t1s[:1]):
+            for t2 in t2s:
+                out.append({"fixtures": [warm, cold, cold2], "nowarm": [cold, cold2],
+                            "prefix": [call(warm, 1), call(warm, 2)],
+                            "program": {"id": 9000 + len(out), "threads": [[dict(o) for o in t1], [dict(o) for o in t2]]}})
+    return out
+
+
+def run_cold(pid, tier, seed, wd, all_tr, jobs_by_tag):
+    """Cold-start exploration: one fresh process per schedule, the DFS stack is carried by this driver."""
+    fx = load_fixtures()
+    thorough = tier == "thorough"
+    progs = cold_programs(fx, thorough)
+    max_s = 3000 if thorough else 300
+    tot = {"programs": len(progs), "schedules": 0, "deadlocks": 0}
+    cdir = os.path.join(wd, "cold")
+    os.makedirs(cdir, exist_ok=True)
+
+    def one(ip):
+        i, cp = ip
+        tag = "cold%d" % i
+        base = {"fixtures": cp["fixtures"], "nowarm": cp["nowarm"], "prefix": cp["prefix"], "programs": [cp["program"]],
+                "probe": [], "hang_ms": 20000, "tag": tag, "max_log": 0}
+        stack, n, texts, bad = [], 0, [], None
+        while n < max_s:
+            job = dict(base, strategy={"kind": "dfs1", "stack": stack, "preempt": 3 if thorough else 2})
+            jp = os.path.join(cdir, "job_%d.json" % i)
+            tp = os.path.join(cdir, "tr_%d.ndjson" % i)
+            json.dump(job, open(jp, "w"))
+            r = harness_json(["conc", "--job", jp, "--out", tp], timeout=300)
+            n += 1
+            texts.append(open(tp).read())
+            if r["verdict"] != "ok":
+                bad = r["verdict"]
+                break
+            if r.get("next_stack") is None:
+                break
+            stack = r["next_stack"]
+        return tag, base, n, "".join(texts), bad
+
+    import concurrent.futures
+    with concurrent.futures.ThreadPoolExecutor(max_workers=12) as ex:
+        res = list(ex.map(one, enumerate(progs)))
+    with open(all_tr, "a") as allf:
+        for tag, base, n, txt, bad in res:
+            tot["schedules"] += n
+            tot["deadlocks"] += 1 if bad else 0
+            jobs_by_tag[tag] = base
+            allf.write(txt)
+    return tot
 
 
 def run_conc_check(pid, tier, seed, wd):
@@ -191,6 +290,14 @@ def run_conc_check(pid, tier, seed, wd):
                               "strategy": job["strategy"]}
     log("[%s] real code under the scheduler: %d programs, %d schedules explored (%d completed, %d distinct outcomes logged)" %
         (pid, tot["programs"], tot["schedules"], tot["finished"], tot["logged"]))
+    cold = {}
+    if pid in ("C17", "C18"):
+        cold = run_cold(pid, tier, seed, wd, all_tr, jobs_by_fixture)
+        log("[%s] cold start (first calls and their registrations inside the concurrent section, one process per "
+            "schedule): %d programs, %d schedules" % (pid, cold["programs"], cold["schedules"]))
+        tot["schedules"] += cold["schedules"]
+        tot["programs"] += cold["programs"]
+        tot["cold"] = cold
     tcfg = os.path.join(wd, "Trace.cfg")
     write_cfg(tcfg, "TraceSpec", {"Quirks": set()}, invariants=["Done"])
     tv = validate_file("Trace", tcfg, all_tr, pid + "_conc", nshards=14, boundary='"ev":"quiesce"', timeout=3000)
